@@ -12,12 +12,14 @@ import (
 	"bytes"
 	"encoding/json"
 	"fmt"
+	"io/ioutil"
 	"math"
 	"os"
 	"sort"
 	"time"
 
 	"github.com/getlantern/goexpr"
+	"github.com/getlantern/golog"
 	"github.com/getlantern/zenodb/encoding"
 	"github.com/getlantern/zenodb/expr"
 )
@@ -440,6 +442,7 @@ func truncCase(c *Case, out *bufio.Writer, st *stats) {
 }
 
 func main() {
+	golog.SetOutputs(ioutil.Discard, ioutil.Discard)
 	in := bufio.NewReaderSize(os.Stdin, 1<<20)
 	out := bufio.NewWriterSize(os.Stdout, 1<<20)
 	defer out.Flush()
@@ -474,6 +477,8 @@ func main() {
 			truncCase(&c, out, st)
 		case "sort":
 			sortCase(&c, out, st)
+		case "plan":
+			planCase(&c, out, st)
 		default:
 			fmt.Fprintln(os.Stderr, "unknown case kind", c.Kind)
 			os.Exit(2)
